@@ -7,6 +7,7 @@
 package main
 
 import (
+	"syscall"
 	"crypto/sha256"
 	"encoding/hex"
 	"encoding/json"
@@ -123,6 +124,9 @@ func worker(a []string) {
 	}
 	out := drive.SilenceStdout()
 	_ = out
+	// a worker that runs away (a spinning daemon under test) must fail by itself instead of exhausting the machine
+	lim := uint64(20 << 30)
+	syscall.Setrlimit(syscall.RLIMIT_AS, &syscall.Rlimit{Cur: lim, Max: lim})
 	p := core.Registry[a[0]]
 	if p == nil {
 		fmt.Fprintln(os.Stderr, "unknown property", a[0])
